@@ -269,6 +269,17 @@ def main(run, shard=(0, 1)) -> None:
                         run.count('unify_path_outputs_fed')
                     except ValueError:
                         pass
+                # pack paths: unify_path() either refuses the name or hands back one that stays below any root it is joined to
+                for path in variants:
+                    try:
+                        uni = pl.unify_path(path)
+                    except ValueError:
+                        run.count('unify_path_refusals')
+                        continue
+                    run.count('unify_path_outputs_judged')
+                    if os.path.isabs(uni) or not sb.contained(uni.replace('\\', '/')):
+                        run.violation(f'unify_path({path!r}) returned {uni!r}, which leaves the folder it is joined to',
+                                      case={'path': path}, engine='exhaustive', key='unify-path-escapes')
                 # the main systems get every path; the secondary configurations a seeded quarter
                 for path in variants:
                     for si, (label, fs, root, prefix) in enumerate(systems):
@@ -291,7 +302,7 @@ def main(run, shard=(0, 1)) -> None:
         sb.cleanup()
     probe.report(run)
     probe.check_reached(run)
-    run.require('operations', 'file_handle_opens', 'root_escape_errors', 'paths_enumerated', 'primed_operations')
+    run.require('operations', 'file_handle_opens', 'unify_path_refusals', 'unify_path_outputs_judged', 'root_escape_errors', 'paths_enumerated', 'primed_operations')
 
 
 def replay(run, data) -> None:
